@@ -45,6 +45,7 @@ class Jail:
         self.log: list[tuple] = []        # (op, paths..., mutating)
         self.refused: list[tuple] = []
         self.on_boundary = None           # callable(index, op, paths) or None
+        self.on_after_open = None         # callable(paths) after a writing open
         self.mut_count = 0
         self.recording = True
         self.sorted_listdir = True
@@ -173,7 +174,13 @@ def install():
         j = _ACTIVE
         if j is not None and not isinstance(file, int):
             w = any(c in mode for c in 'wax+')
-            j.note('open-w' if w else 'open-r', file, mutating=w)
+            rps = j.note('open-w' if w else 'open-r', file, mutating=w)
+            fh = orig_open(file, mode, *a, **kw)
+            if w and j.on_after_open is not None:
+                # a truncating / creating open changes the disk at once; the
+                # data only arrives at close: this state is a crash point
+                j.on_after_open(rps)
+            return fh
         return orig_open(file, mode, *a, **kw)
     builtins.open = open_
     io.open = open_
@@ -185,7 +192,11 @@ def install():
         if j is not None and kw.get('dir_fd') is None:
             w = bool(flags & (os.O_WRONLY | os.O_RDWR | os.O_CREAT |
                               os.O_TRUNC | os.O_APPEND))
-            j.note('open-w' if w else 'open-r', path, mutating=w)
+            rps = j.note('open-w' if w else 'open-r', path, mutating=w)
+            fd = orig_os_open(path, flags, *a, **kw)
+            if w and j.on_after_open is not None:
+                j.on_after_open(rps)
+            return fd
         return orig_os_open(path, flags, *a, **kw)
     os.open = os_open
     orig_rmtree = shutil.rmtree
